@@ -39,15 +39,21 @@ Definition is_npmatrix (A : arr) : bool := match a_kind A with KMat => true | _ 
 Definition is_dok (A : arr) : bool := match a_kind A with KSp _ Dok => true | _ => false end.
 
 (* ---- outcomes of operations that can raise *)
-Inductive res (T : Type) := Ok (v : T) | NotImpl | Err.
+(* NotImpl = NotImplementedError, NoConv = scipy.sparse.linalg.ArpackNoConvergence (the two exception
+   classes the translated text has handlers for), Err = any other exception *)
+Inductive res (T : Type) := Ok (v : T) | NotImpl | NoConv | Err.
 Arguments Ok {T} v.
 Arguments NotImpl {T}.
+Arguments NoConv {T}.
 Arguments Err {T}.
 Definition rbind {A B} (r : res A) (k : A -> res B) : res B :=
-  match r with Ok v => k v | NotImpl => NotImpl | Err => Err end.
+  match r with Ok v => k v | NotImpl => NotImpl | NoConv => NoConv | Err => Err end.
 (* try: r  except NotImplementedError: h *)
 Definition try_notimpl {A} (r : res A) (h : res A) : res A :=
   match r with NotImpl => h | _ => r end.
+(* try: r  except scipy.sparse.linalg.ArpackNoConvergence: h *)
+Definition try_noconv {A} (r : res A) (h : res A) : res A :=
+  match r with NoConv => h | _ => r end.
 Definition of_opt {A} (o : option A) : res A := match o with Some v => Ok v | None => Err end.
 Definition to_opt {A} (r : res A) : option A := match r with Ok v => Some v | _ => None end.
 (* assert b *)
@@ -161,3 +167,19 @@ Fixpoint v_allclose2 (t : Q) (u v : list Q) : bool :=
 (* pi @ T *)
 Definition v_matmul (pi : list Q) (T : arr) : list Q :=
   map (vecmat pi (a_val T)) (seq 0 (length (a_val T))).
+
+(* ---- the eigen-solver behind eigenspectrum(T, n_eigs=3, left=True): ARPACK (scipy.sparse.linalg.eigs)
+   for sparse T with >= 1000 states, LAPACK otherwise.  It answers with the leading left eigenvector
+   scaled to sum one (EigVec), gives up after maxiter restarts (EigNoConv: ArpackNoConvergence), or
+   fails in any other way (EigFail).  Only the sparse solver can answer EigNoConv: a dense T never
+   reaches ARPACK, so that answer on a dense T is mapped to Err (outside what the code can meet). *)
+Inductive eig_ans := EigVec (v : list Q) | EigNoConv | EigFail.
+Definition ans_of_opt (o : option (list Q)) : eig_ans :=
+  match o with Some v => EigVec v | None => EigFail end.
+(* val, vec = eigenspectrum(T, n_eigs=3, left=True, ...); vec[:, 0] *)
+Definition eig_of (eig : arr -> eig_ans) (T : arr) : res (unit * list Q) :=
+  match eig T with
+  | EigVec v => Ok (tt, v)
+  | EigNoConv => if is_sparse T then NoConv else Err
+  | EigFail => Err
+  end.
